@@ -154,12 +154,18 @@ Definition c08_req_ok (env : c08_env) (l : list snap_svc) (tr : list (str * trac
                str_eqb (ro_body o) (render503 (e_page env) (custom_of_pages env (sn_has_pages s)) m)
         | TPaused => str_eqb (ro_served_by o) [] || negb (ro_status o =? 200) || true   (* C07's business *)
         | TRun =>
-          (* forwarded: answered by one of the service's targets *)
+          (* forwarded: answered by one of the service's targets.  No claim when the
+             service has no active target, or when the request carries a rollout cookie
+             and the rollout group exists but is empty (503 "no target" is the normal
+             answer of a running service then). *)
+          let rollout_ts := match sn_rollout s with Some ts => ts | None => [] end in
+          let empty_rollout_group :=
+            match q_cookie q, sn_roll s, rollout_ts with Some _, Some _, [] => true | _, _, _ => false end in
           match sn_active s with
           | [] => true
-          | _ => (ro_status o =? 200) &&
-                 (mem_str (ro_served_by o) (sn_active s) ||
-                  match sn_rollout s with Some ts => mem_str (ro_served_by o) ts | None => false end)
+          | _ => empty_rollout_group ||
+                 ((ro_status o =? 200) &&
+                  (mem_str (ro_served_by o) (sn_active s) || mem_str (ro_served_by o) rollout_ts))
           end
         end
     end
